@@ -119,12 +119,16 @@ func main() {
 		Header:   "From Kit Require Import C10.Check.\nOpen Scope Z_scope.",
 		CaseType: "case",
 		CheckFn:  "run_cases",
-		Shard:    46,
+		Shard:    24,
 		Gen:      c10Gen,
 		RunInput: func(ctx *core.Ctx, raw json.RawMessage) error {
 			var probe c10MassInput
 			if json.Unmarshal(raw, &probe) == nil && probe.Mass {
 				return c10RunMass(ctx, probe, "replay")
+			}
+			var rprobe c10RaceInput
+			if json.Unmarshal(raw, &rprobe) == nil && rprobe.Race {
+				return c10RunRace(ctx, rprobe, "replay")
 			}
 			var in c10Input
 			dec := json.NewDecoder(strings.NewReader(string(raw)))
